@@ -152,7 +152,7 @@ PROPS = {
                       'own checks with the accept value the client expects; the client accepts iff status 101, Upgrade, Connection, matching accept '
                       'and the subprotocol condition; bytes after the head become the pre-read buffer of the socket (and by C05 are read independently '
                       'of where the boundary fell).',
-        'level_note': 'Partial for key randomness. D9 (Host cut at the first @) was found here and fixed.',
+        'level_note': 'Partial for key randomness. D9 (Host cut at the first @) and D10 (caller-built HTTP/2 request sent as GET / HTTP/2.0) were found here and fixed.',
     },
     'C17': {
         'modules': ['C17', 'C17Client', 'TieHs'],
